@@ -283,7 +283,11 @@ class ColumnInfo(Immutable):
             'unit': self._unit.serialize(),
             'scale': self._scale,
             'continuous': self._continuous,
-            'categories': self._categories,
+            'categories': (
+                dict(self._categories)
+                if isinstance(self._categories, frozenmapping)
+                else self._categories
+            ),
             'drop': self._drop,
             'datatype': self._datatype,
             'descriptor': self._descriptor,
@@ -297,7 +301,7 @@ class ColumnInfo(Immutable):
             unit=Unit.deserialize(d['unit']),
             scale=d['scale'],
             continuous=d['continuous'],
-            categories=d['categories'],
+            categories=ColumnInfo._canonicalize_categories(d['categories']),
             drop=d['drop'],
             datatype=d['datatype'],
             descriptor=d['descriptor'],
